@@ -36,9 +36,10 @@ type outcome struct {
 type rigSet [3]*proxyRig
 
 const (
-	readTimeoutMs  = 600
-	writeTimeoutMs = 500
-	idleTimeoutMs  = 400
+	readTimeoutMs    = 600
+	writeTimeoutMs   = 500
+	idleTimeoutMs    = 400
+	connectTimeoutMs = 700
 )
 
 func runScenario(rigs rigSet, p Params) outcome {
@@ -233,6 +234,9 @@ func genOne(r *rng.R, idx int, seed uint64, mode string, gated, concrete bool, t
 	if mode == "connectfunc" {
 		p.FnWrap = r.Intn(2) == 0
 	}
+	if mode == "upgrade" {
+		p.ViaProxy = r.Intn(3) == 0
+	}
 	// one in six through martian's http.Handler on net/http's server (Hijack path of proxy_handler.go)
 	p.Handler = r.Intn(6) == 0
 	return p
@@ -246,7 +250,7 @@ func genParams(tier string, seed uint64) []Params {
 		nC, nA, nN = 2600, 900, 1200
 	}
 	gatedModes := []string{"direct", "uphttp", "socks5", "connectfunc", "upgrade"}
-	nativeModes := []string{"direct", "uphttp", "uphttps", "socks5", "connectfunc", "upgrade"}
+	nativeModes := []string{"direct", "uphttp", "uphttps", "socks5", "connectfunc", "upgrade", "upgradetls"}
 	for i := 0; i < nC; i++ {
 		out = append(out, genOne(r, len(out), seed, gatedModes[i%len(gatedModes)], true, true, tier))
 	}
@@ -345,6 +349,8 @@ func modeN(m string) int {
 		return 4
 	case "upgrade":
 		return 5
+	case "upgradetls":
+		return 6
 	}
 	return 9
 }
@@ -566,8 +572,8 @@ func main() {
 	shardIndex := map[string][3]any{}
 	type group struct {
 		kind, typ, m, p string
-		cases         []string
-		recs          []result
+		cases           []string
+		recs            []result
 	}
 	groups := map[string]*group{
 		"ccases": {kind: "ccases", typ: "ccase", m: "cmodel_ok", p: "cprop_ok"},
@@ -722,7 +728,7 @@ func main() {
 		"native": len(groups["ncases"].cases), "grace_batch": len(graceOuts), "short_grace_ns": shortGrace,
 		"real_grace_scenarios": len(realGrace), "skipped_after_many_timeouts": skipped, "timed_out": timedOut.Load(),
 		"grid_complete_over": map[bool]string{true: "mode(5) x close order(3) x early{0,1,5} x banner{0,1,5} x listener read schedule(3) x handler(2) = 1620 gated scenarios", false: ""}[*tier == "thorough" && *replay == ""],
-		"distribution": dist, "max_read_observed": maxRead, "copy_buf_len_observed": bufLen,
+		"distribution":       dist, "max_read_observed": maxRead, "copy_buf_len_observed": bufLen,
 		"inferred_reads": inferred, "events": events, "trace_problems": problems, "trace_problem_list": probList,
 		"fd_before": fd0, "fd_after": fd1, "payload_bytes": totalBytes, "slowest_scenario_ms": slowest,
 		"samples": samples,
